@@ -849,3 +849,193 @@ Proof.
     unfold step in H; rewrite Hs, Hpc in H; exact (proj1 H)).
   apply commit_wev.
 Qed.
+
+(* ---------------------------------------------------------------- C06: the two-phase-locking invariant *)
+(* the critical section of a writer: from the statement after GetBalances to COMMIT *)
+Definition crit (p : cpc) : bool := match p with PVol | PTx | PAdv | PLog | PCommit => true | _ => false end.
+(* what UpdateVolumes adds to the balance of the source row *)
+Definition src_delta (o : cop) : Z := if ckey_eqb (src_key o) (dst_key o) then 0 else - o_amt o.
+
+(* writer w holds the lock of its source row; the committed balance of that row is still the one it read and checked;
+   the only uncommitted change on it is its own debit *)
+Definition Arow (vs : list vrow) (w : wid) (o : cop) (read a : Z) : Prop :=
+  0 <= o_amt o /\ o_amt o <= read + a /\
+  exists r, vfind vs (src_key o) = Some r /\ v_lock r = Some w /\ v_bal r = read /\
+            (v_pend r = 0 \/ (v_upd r = true /\ v_pend r = src_delta o)).
+Definition Jw (g : gst) (w : wid) : Prop :=
+  forall s a, nth_error (g_ws g) w = Some s -> allowance (w_op s) = Some a -> w_locked s = true -> crit (w_pc s) = true ->
+              Arow (g_vols g) w (w_op s) (w_read s) a.
+
+Lemma Jw_same g g' w : g_vols g' = g_vols g -> g_ws g' = g_ws g -> Jw g w -> Jw g' w.
+Proof. unfold Jw. intros -> ->. auto. Qed.
+Lemma Jw_ev g w w1 l st : Jw g w -> Jw (ev g w1 l st) w.
+Proof. apply Jw_same; reflexivity. Qed.
+Lemma Jw_dead g w :
+  (forall s, nth_error (g_ws g) w = Some s -> crit (w_pc s) = false \/ w_locked s = false \/ allowance (w_op s) = None) -> Jw g w.
+Proof. intros H s a Hn Ha Hl Hc. destruct (H s Hn) as [E|[E|E]]; congruence. Qed.
+Lemma Jw_upd g w f :
+  Jw g w ->
+  (forall s, nth_error (g_ws g) w = Some s ->
+     w_op (f s) = w_op s /\ w_read (f s) = w_read s /\
+     (crit (w_pc (f s)) = true -> w_locked (f s) = true -> allowance (w_op s) <> None -> crit (w_pc s) = true /\ w_locked s = true)) ->
+  Jw (upd_w g w f) w.
+Proof.
+  intros HJ Hf s' a Hn Ha Hl Hc. simpl in Hn. rewrite nth_upd_same in Hn.
+  destruct (nth_error (g_ws g) w) as [s|] eqn:Hs; simpl in Hn; [|discriminate]. inversion Hn; subst s'. clear Hn.
+  destruct (Hf s eq_refl) as [E1 [E2 E3]]. rewrite E1 in *. rewrite E2.
+  destruct (E3 Hc Hl) as [Hc' Hl']; [congruence|]. simpl. apply HJ; auto.
+Qed.
+
+Ltac upd_side := let s0 := fresh "s0" in let H0 := fresh "H0" in
+  intros s0 H0; simpl; repeat split; auto; intros; try discriminate; try congruence.
+
+Lemma Jw_fail_abort g w e : Jw (fail_abort g w e) w.
+Proof.
+  apply Jw_dead. intros s Hn. unfold fail_abort in Hn. simpl in Hn. rewrite nth_upd_same, nth_clear in Hn.
+  destruct (nth_error (g_ws g) w); simpl in Hn; [|discriminate]. inversion Hn; subst. left. reflexivity.
+Qed.
+Lemma Jw_fail_soft g w e : Jw (fail_soft g w e) w.
+Proof.
+  apply Jw_dead. intros s Hn. unfold fail_soft in Hn. simpl in Hn. rewrite nth_upd_same in Hn.
+  destruct (nth_error (g_ws g) w); simpl in Hn; [|discriminate]. inversion Hn; subst. left. reflexivity.
+Qed.
+Lemma Jw_blocked g w h l : Jw g w -> Jw (blocked g w h l) w.
+Proof.
+  intros HJ. unfold blocked. destruct (reaches _ _ _ _); apply Jw_ev; [apply Jw_fail_abort|].
+  apply Jw_upd; auto; upd_side.
+Qed.
+
+Lemma after_ik_crit o : crit (after_ik o) = true -> allowance o = None.
+Proof.
+  unfold after_ik, has_bal. destruct (o_kind o); simpl; [|discriminate].
+  destruct (allowance o); simpl; [discriminate|auto].
+Qed.
+Lemma start_pc_crit o b : crit (start_pc o b) = true -> allowance o = None.
+Proof. unfold start_pc. destruct (_ && _); simpl; [discriminate|apply after_ik_crit]. Qed.
+
+(* GetBalances took the lock (or inserted the row): the invariant is established *)
+Lemma Jw_bal_done_locked g w s x :
+  nth_error (g_ws g) w = Some s -> vfind (g_vols g) (src_key (w_op s)) = Some x -> v_lock x = Some w -> v_pend x = 0 ->
+  Jw (bal_done g w (w_op s) (v_bal x) true) w.
+Proof.
+  intros Hs Hf Hl Hp. unfold bal_done. destruct (allowance (w_op s)) as [a|] eqn:Ha.
+  - destruct ((0 <=? o_amt (w_op s)) && (o_amt (w_op s) <=? v_bal x + a)) eqn:Hchk; [|apply Jw_fail_soft].
+    apply andb_true_iff in Hchk. destruct Hchk as [H1 H2]. apply Z.leb_le in H1, H2.
+    intros s' a' Hn Ha' Hlk Hc. simpl in Hn. rewrite !nth_upd_same, Hs in Hn. simpl in Hn. inversion Hn; subst s'. simpl in *.
+    rewrite Ha in Ha'. inversion Ha'; subst a'. split; [auto|split; [auto|]]. exists x. auto.
+  - apply Jw_dead. intros s' Hn. simpl in Hn. rewrite !nth_upd_same, Hs in Hn. simpl in Hn. inversion Hn; subst s'. simpl. auto.
+Qed.
+Lemma Jw_bal_done_unlocked g w o r : Jw (bal_done g w o r false) w.
+Proof.
+  apply Jw_dead. intros s Hn. unfold bal_done in Hn.
+  destruct (allowance o); [destruct (_ && _)|]; simpl in Hn; rewrite !nth_upd_same in Hn;
+    destruct (nth_error (g_ws g) w); simpl in Hn; try discriminate; inversion Hn; subst; simpl; auto.
+Qed.
+
+Lemma vol_keys_src o k d : In (k, d) (vol_keys o) -> k = src_key o -> d = src_delta o.
+Proof.
+  unfold vol_keys, src_delta. destruct (ckey_eqb (src_key o) (dst_key o)) eqn:E.
+  - intros [H|[]] _. inversion H; auto.
+  - destruct (String.leb _ _); intros [H|[H|[]]] Hk; inversion H; subst; auto;
+      rewrite H1 in E; rewrite ckey_eqb_refl in E; discriminate.
+Qed.
+Lemma in_skipn {A} (x : A) n l : In x (skipn n l) -> In x l.
+Proof. revert l. induction n as [|n IH]; intros [|y r]; simpl; auto. Qed.
+
+Lemma Jw_vol_loop ks : forall g w i s,
+  nth_error (g_ws g) w = Some s -> w_pc s = PVol ->
+  (forall k d, In (k, d) ks -> k = src_key (w_op s) -> d = src_delta (w_op s)) ->
+  Jw g w -> Jw (vol_loop g w ks i) w.
+Proof.
+  induction ks as [|[k d] rest IH]; simpl; intros g w i s Hs Hpc Hks HJ.
+  - apply Jw_ev. apply Jw_upd; auto. intros s0 H0. rewrite Hs in H0. inversion H0; subst s0. simpl. rewrite Hpc. auto.
+  - assert (Hrest : forall k0 d0, In (k0, d0) rest -> k0 = src_key (w_op s) -> d0 = src_delta (w_op s)) by (intros; eapply Hks; eauto).
+    destruct (vfind (g_vols g) k) as [x|] eqn:Hf.
+    + set (f := fun x0 => {| v_key := v_key x0; v_bal := v_bal x0; v_pend := if v_upd x0 then v_pend x0 else v_pend x0 + d;
+                             v_lock := Some w; v_new := v_new x0; v_upd := true |}).
+      assert (Htake : Jw (set_vols g (vtake (g_vols g) w k f)) w).
+      { intros s' a Hn Ha Hl Hc. simpl in Hn. rewrite Hs in Hn. inversion Hn; subst s'.
+        destruct (HJ s a Hs Ha Hl Hc) as [A1 [A2 [r [Hr [Hlk [Hb Hp]]]]]].
+        split; [auto|split; [auto|]]. simpl. unfold vtake.
+        rewrite vfind_map by (intros y; destruct (_ && _); reflexivity). rewrite Hr. simpl.
+        destruct (vfind_key _ _ _ Hr) as [Hkr _].
+        destruct (ckey_eqb (v_key r) k && free_for w r) eqn:E.
+        - apply andb_true_iff in E. destruct E as [E _]. apply ckey_eqb_eq in E.
+          assert (Hd : d = src_delta (w_op s)) by (apply (Hks k d); [left; auto|congruence]).
+          exists (f r). simpl. repeat split; auto.
+          destruct (v_upd r) eqn:Eu.
+          + destruct Hp as [Hp|[_ Hp]]; [left; auto|right; auto].
+          + destruct Hp as [Hp|[Hp _]]; [|discriminate]. right. split; auto. lia.
+        - exists r. auto. }
+      destruct (v_lock x) as [h|].
+      * destruct (Nat.eqb h w).
+        -- apply (IH _ w (S i) s); auto.
+        -- apply Jw_blocked. apply Jw_upd; auto; upd_side.
+      * apply (IH _ w (S i) s); auto.
+    + apply (IH _ w (S i) s); auto.
+      intros s' a Hn Ha Hl Hc. simpl in Hn. destruct (HJ s' a Hn Ha Hl Hc) as [A1 [A2 [r [Hr Hrest']]]].
+      split; [auto|split; [auto|]]. exists r. split; auto. simpl. apply vfind_app_some; auto.
+Qed.
+
+(* the writer's own store call keeps its invariant *)
+Lemma Jw_own g w : unlocked_clean (g_vols g) -> Jw g w -> Jw (step g w) w.
+Proof.
+  intros HU HJ. unfold step. destruct (get_w g w) as [s|] eqn:Hs; [|exact HJ]. unfold get_w in Hs.
+  destruct (w_pc s) eqn:Hpc.
+  - (* ik *) unfold do_ik. apply Jw_ev. brk; try apply Jw_fail_soft; apply Jw_upd; auto; intros s0 H0; rewrite Hs in H0; inversion H0; subst s0; simpl;
+      repeat split; auto; intros; try discriminate. exfalso. apply H2. apply after_ik_crit; auto.
+  - (* rev *) unfold do_rev. brk; try (apply Jw_ev; apply Jw_fail_soft); try (apply Jw_blocked; auto);
+      apply Jw_ev; apply Jw_upd; try (apply (Jw_same g); auto; reflexivity); upd_side.
+  - (* bal *) unfold do_bal. destruct (vfind (g_vols g) (src_key (w_op s))) as [x|] eqn:Hf.
+    + destruct (v_lock x) as [h|] eqn:Hl.
+      * brk; try (apply Jw_ev; apply Jw_bal_done_unlocked);
+          apply Jw_blocked; apply Jw_upd; auto; upd_side.
+      * brk; try (apply Jw_ev; apply Jw_bal_done_unlocked).
+        apply Jw_ev.
+        set (f := fun x0 => {| v_key := v_key x0; v_bal := v_bal x0; v_pend := v_pend x0; v_lock := Some w; v_new := v_new x0; v_upd := v_upd x0 |}).
+        replace (v_bal x) with (v_bal (f x)) by reflexivity.
+        apply (Jw_bal_done_locked (set_vols g (vtake (g_vols g) w (src_key (w_op s)) f)) w s (f x)); auto.
+        -- simpl. unfold vtake. rewrite vfind_map by (intros y; destruct (_ && _); reflexivity). rewrite Hf. simpl.
+           destruct (vfind_key _ _ _ Hf) as [Hk _]. rewrite Hk, ckey_eqb_refl. unfold free_for. rewrite Hl. reflexivity.
+        -- simpl. destruct (vfind_key _ _ _ Hf) as [_ Hin]. apply (HU x Hin Hl).
+    + apply Jw_ev.
+      set (row := {| v_key := src_key (w_op s); v_bal := 0; v_pend := 0; v_lock := Some w; v_new := true; v_upd := false |}).
+      apply (Jw_bal_done_locked (set_vols g (g_vols g ++ [row])) w s row); auto.
+      simpl. rewrite vfind_app_none by auto. simpl. rewrite ckey_eqb_refl. reflexivity.
+  - (* vol *) unfold do_vol. apply (Jw_vol_loop _ g w (w_volk s) s); auto.
+    intros k d Hin. apply vol_keys_src. eapply in_skipn; eauto.
+  - (* tx *) unfold do_tx. destruct (my_pending_tx g w).
+    + brk; try (apply Jw_blocked; auto); try (apply Jw_ev; apply Jw_fail_abort);
+        apply Jw_ev; apply Jw_upd; try (apply (Jw_same g); auto; reflexivity);
+        intros s0 H0; simpl in H0; rewrite Hs in H0; inversion H0; subst s0; simpl; rewrite Hpc; auto.
+    + set (row := {| t_id := g_ntx g; t_ref := tx_ref (w_op s); t_own := Some w; t_rev := false; t_revlock := None; t_pend := true |}).
+      set (g1 := upd_w (set_ntx (set_txs g (g_txs g ++ [row])) (g_ntx g + 1)) w (fun s0 => wset_txid s0 (Some (g_ntx g)))).
+      assert (H1 : Jw g1 w) by (unfold g1; apply Jw_upd; [apply (Jw_same g); auto; reflexivity|upd_side]).
+      assert (Hs1 : nth_error (g_ws g1) w = Some (wset_txid s (Some (g_ntx g)))) by (unfold g1; simpl; rewrite nth_upd_same, Hs; reflexivity).
+      brk; try (apply Jw_blocked; auto); try (apply Jw_ev; apply Jw_fail_abort);
+        apply Jw_ev; apply Jw_upd; try (apply (Jw_same g1); auto; reflexivity);
+        intros s0 H0; change (nth_error (g_ws g1) w = Some s0) in H0; rewrite Hs1 in H0; inversion H0; subst s0; simpl; rewrite Hpc; auto.
+  - (* adv *) unfold do_adv. brk; try (apply Jw_blocked; auto);
+      apply Jw_ev; apply Jw_upd; try (apply (Jw_same g); auto; reflexivity);
+      intros s0 H0; simpl in H0; rewrite Hs in H0; inversion H0; subst s0; simpl; rewrite Hpc; auto.
+  - (* log *) unfold do_log. destruct (g_hash g && negb (owner_is (g_adv g) w)); [exact HJ|].
+    destruct (my_pending_log g w).
+    + brk; try (apply Jw_blocked; auto); try (apply Jw_ev; apply Jw_fail_abort);
+        apply Jw_ev; apply Jw_upd; try (apply (Jw_same g); auto; reflexivity);
+        intros s0 H0; simpl in H0; rewrite Hs in H0; inversion H0; subst s0; simpl; rewrite Hpc; auto.
+    + set (row := {| l_id := g_nlog g; l_ik := o_ik (w_op s); l_inh := o_inh (w_op s); l_own := Some w;
+                     l_tx := match w_txid s with Some i => i | None => 0 end; l_pend := true |}).
+      set (g1 := upd_w (set_nlog (set_logs g (g_logs g ++ [row])) (g_nlog g + 1)) w (fun s0 => wset_logid s0 (Some (g_nlog g)))).
+      assert (H1 : Jw g1 w) by (unfold g1; apply Jw_upd; [apply (Jw_same g); auto; reflexivity|upd_side]).
+      assert (Hs1 : nth_error (g_ws g1) w = Some (wset_logid s (Some (g_nlog g)))) by (unfold g1; simpl; rewrite nth_upd_same, Hs; reflexivity).
+      brk; try (apply Jw_blocked; auto); try (apply Jw_ev; apply Jw_fail_abort);
+        apply Jw_ev; apply Jw_upd; try (apply (Jw_same g1); auto; reflexivity);
+        intros s0 H0; change (nth_error (g_ws g1) w = Some s0) in H0; rewrite Hs1 in H0; inversion H0; subst s0; simpl; rewrite Hpc; auto.
+  - (* commit *) unfold do_commit. apply Jw_ev. apply Jw_dead. intros s0 H0. simpl in H0.
+    rewrite nth_upd_same, nth_clear, Hs in H0. simpl in H0. inversion H0; subst s0. left. destruct (owner_is _ _); reflexivity.
+  - (* rollback *) unfold do_rollback. apply Jw_ev. destruct (w_err s) as [[]|]; try destruct (w_retry s);
+      apply Jw_dead; intros s0 H0; simpl in H0; rewrite nth_upd_same, nth_clear, Hs in H0; simpl in H0; inversion H0; subst s0; simpl;
+      first [left; reflexivity | right; left; reflexivity].
+  - (* fetch *) unfold do_fetch. apply Jw_ev. brk; apply Jw_upd; auto; upd_side.
+  - exact HJ.
+Qed.
